@@ -23,26 +23,46 @@ def run(ctx, L, tier):
 def protocol(ctx, L):
     """(c) validate, self-copy shortcut, clear, delegate; the union copies its discriminated arm."""
     f = ctx.py.mod('prophy.composite_base').func('_composite_base.copy_from')
-    body = [ws(unparse(s)) for s in f.node.body]
-    L.check(body == ['self.validate_copy_from(other)', 'if other is self: return', 'self._fields.clear()', 'self._copy_implementation(other)'],
-            'C11c.copy-protocol', 'copy_from', f.site(),
+    L.check(P.body_is(f, """
+        self.validate_copy_from(other)
+        if other is self:
+            return
+        self._fields.clear()
+        self._copy_implementation(other)
+    """, params=['self', 'other']), 'C11c.copy-protocol', 'copy_from', f.site(),
             'copy_from must: validate the source type, return early for self-copy (before clearing!), clear the destination\'s '
-            'fields, then copy every field', str(body))
+            'fields, then copy every field; got: %s' % P.sem_body(f), ws(unparse(f.node)))
     v = ctx.py.mod('prophy.composite_base').func('_composite_base.validate_copy_from')
-    L.check('if not isinstance(rhs, cls): raise' in ws(unparse(v.node)), 'C11c.copy-protocol', 'validate_copy_from', v.site(),
+    vr = [r for r in v.walk() if isinstance(r, ast.Raise)]
+    L.check(len(vr) == 1 and P.knows(v, vr[0], 'isinstance(rhs, cls)', False, ['cls', 'rhs']), 'C11c.copy-protocol', 'validate_copy_from', v.site(),
             'only instances of the same class can be copied', '')
     comp = ctx.py.mod('prophy.composite')
     s = comp.func('struct._copy_implementation')
-    body = [ws(unparse(x)) for x in s.node.body]
-    L.check(body == ['for name, rhs in other._fields.items(): self.set_field(name, rhs)'], 'C11c.copy-protocol',
+    L.check(P.body_is(s, """
+        for name, rhs in other._fields.items():
+            self.set_field(name, rhs)
+    """, params=['self', 'other']), 'C11c.copy-protocol',
             'struct._copy_implementation', s.site(),
             'every field the source holds must be copied unconditionally (a filter on the value would drop explicitly stored '
-            'zero / empty values: present optional 0, zero-valued enumerators)', str(body))
+            'zero / empty values: present optional 0, zero-valued enumerators)', P.sem_body(s))
     u = comp.func('union._copy_implementation')
     us = ws(unparse(u.node))
-    L.check(us.startswith("def _copy_implementation(self, other): self._discriminated = other._discriminated rhs = getattr(other, self._discriminated.name)"),
+    ua = P.authored(u, ['self', 'other'], [('getattr(other, self._discriminated.name)', 'rhs'), ('getattr(self, self._discriminated.name)', 'lhs')])
+    ub = [ws(unparse(x)) for x in ua.node.body]
+    L.check(ub[:2] == ['self._discriminated = other._discriminated', 'rhs = getattr(other, self._discriminated.name)'],
             'C11c.copy-protocol', 'union._copy_implementation|arm', u.site(), 'the union takes over the discriminated arm and reads '
             'that arm\'s value from the source', us)
+
+
+def authored_copy_func(comp, q):
+    """The copy functions with the names the rules below are written in (parameters by position, lhs/rhs by what they are
+    bound to): a renaming of parameters or locals does not change what is checked."""
+    f = comp.func(q)
+    if q == 'struct.set_field':
+        return P.authored(f, ['self', 'name', 'rhs'], [('getattr(self, name)', 'lhs')], [('zip(lhs, rhs)', ['lhs_elem', 'rhs_elem'])])
+    if q == 'union._copy_implementation':
+        return P.authored(f, ['self', 'other'], [('getattr(other, self._discriminated.name)', 'rhs'), ('getattr(self, self._discriminated.name)', 'lhs')])
+    return P.authored(f, ['self', 'other'], [], [('other._fields.items()', ['name', 'rhs'])])
 
 
 def stores(f):
@@ -79,7 +99,7 @@ def ownership(ctx, L):
     comp = ctx.py.mod('prophy.composite')
     n = 0
     for q in ('struct.set_field', 'union._copy_implementation', 'struct._copy_implementation'):
-        f = comp.func(q)
+        f = authored_copy_func(comp, q)
         for node, val, how in stores(f):
             n += 1
             key = '%s|%s' % (f.fq, norm_key(f, node))
@@ -107,14 +127,14 @@ def ownership(ctx, L):
                 L.bad('C11a.ownership', key, f.site(node), 'unrecognised store of a source-derived value `%s`' % vs, unparse(node))
     L.floor('C11a.ownership', n, 3)
     # copying composites: always copy_from into the destination's own object
-    sf = comp.func('struct.set_field')
+    sf = authored_copy_func(comp, 'struct.set_field')
     src = ws(unparse(sf.node))
     for piece, why in (('lhs = getattr(self, name)', 'the destination object comes from the destination\'s own getter'),
                        ('lhs.copy_from(rhs)', 'composites are copied recursively'),
                        ('lhs_elem.copy_from(rhs_elem)', 'fixed composite array elements are copied recursively'),
                        ('del lhs[:] lhs.extend(rhs[:])', 'variable-length composite arrays are rebuilt by extend (which copies each element)')):
         L.check(piece in src, 'C11a.ownership', 'set_field|' + piece, sf.site(), why + ' (expected `%s`)' % piece, '')
-    u = comp.func('union._copy_implementation')
+    u = authored_copy_func(comp, 'union._copy_implementation')
     us = ws(unparse(u.node))
     L.check(inn('if codec_kind.is_composite(self._discriminated.type): lhs = getattr(self, self._discriminated.name) lhs.copy_from(rhs) '
             'else: setattr(self, self._discriminated.name, rhs)', us), 'C11a.ownership', 'union._copy_implementation|ladder', u.site(),
@@ -127,7 +147,7 @@ def ownership(ctx, L):
 def ladder(ctx, L):
     """(b) every field class reaches a branch of set_field whose assumptions hold for it."""
     comp = ctx.py.mod('prophy.composite')
-    f = comp.func('struct.set_field')
+    f = authored_copy_func(comp, 'struct.set_field')
     top = [s for s in f.node.body if isinstance(s, ast.If)]
     if len(top) != 1:
         raise AnalysisError('set_field: ladder not found')
